@@ -198,7 +198,20 @@ def seqSchedule (nOuts : List Nat) : List Ev :=
 
 section Batch2
 variable {P B R O T : Type}
+/-- number of output files of every task -/
 def nOutsOf (conv : P × B → R × List (O × T)) (tasks : List (P × B)) : List Nat := tasks.map (fun t => (conv t).2.length)
+
+/-- hypothesis 1 of the schedule theorem: no two tasks write the same output path -/
+def OutputsDisjoint (conv : P × B → R × List (O × T)) (tasks : List (P × B)) : Prop :=
+  tasks.Pairwise (fun a b => ∀ o, o ∈ akeys (conv a).2 → o ∉ akeys (conv b).2)
+
+/-- the input paths are distinct (they are the entries of a directory listing) -/
+def PathsDistinct (tasks : List (P × B)) : Prop := (tasks.map Prod.fst).Nodup
+
+/-- two batch states are the same results dict and the same output tree (as maps: Python `dict.__eq__`
+and "the same set of files with the same contents" ignore insertion order) -/
+def StateEquiv [DecidableEq P] [DecidableEq O] (s s' : State P R O T) : Prop :=
+  (∀ p, aget s.results p = aget s'.results p) ∧ (∀ o, aget s.tree o = aget s'.tree o)
 end Batch2
 
 end TD.C12
